@@ -4,7 +4,11 @@ package sm2_test
 
 import (
 	"bytes"
+	"fmt"
 	"io"
+
+	"pgregory.net/rapid"
+	"verif.local/ref/gen"
 )
 
 // streamReader serves a fixed byte stream, full reads, and records what was asked.
@@ -13,12 +17,16 @@ type streamReader struct {
 	pos      int
 	reads    []int // requested sizes
 	consumed int
+	chunk    int // > 0: deliver at most this many bytes per Read (short reads without error)
 }
 
 func (s *streamReader) Read(p []byte) (int, error) {
 	s.reads = append(s.reads, len(p))
 	if s.pos >= len(s.data) {
 		return 0, io.EOF
+	}
+	if s.chunk > 0 && len(p) > s.chunk {
+		p = p[:s.chunk]
 	}
 	n := copy(p, s.data[s.pos:])
 	s.pos += n
@@ -45,4 +53,47 @@ func sameAll(a [][]byte, bs ...[]byte) bool {
 		}
 	}
 	return true
+}
+
+
+// recordLayout places the given byte strings one after another, in a drawn order, in ONE buffer and returns sub-slices whose
+// CAPACITY extends over everything that follows (as when a caller parses a wire record in place: x || msg || r || s ...), plus a
+// function reporting whether any byte of the whole buffer changed. A callee that appends to an input slice or writes behind its
+// length corrupts the neighbouring field — visible both in the result and in the buffer comparison.
+func recordLayout(t *rapid.T, label string, fields ...[]byte) ([][]byte, func() string) {
+	order := make([]int, len(fields))
+	for i := range order {
+		order[i] = i
+	}
+	for i := len(order) - 1; i > 0; i-- {
+		j := gen.Uniform(t, label+".perm", 0, i)
+		order[i], order[j] = order[j], order[i]
+	}
+	total := 0
+	for _, f := range fields {
+		total += len(f)
+	}
+	buf := make([]byte, total+48)
+	for i := total; i < len(buf); i++ {
+		buf[i] = 0xC5
+	}
+	out := make([][]byte, len(fields))
+	off := 0
+	for _, idx := range order {
+		copy(buf[off:], fields[idx])
+		out[idx] = buf[off : off+len(fields[idx])] // capacity runs to the end of the record
+		off += len(fields[idx])
+	}
+	snapshot := append([]byte(nil), buf...)
+	return out, func() string {
+		if bytes.Equal(buf, snapshot) {
+			return ""
+		}
+		for i := range buf {
+			if buf[i] != snapshot[i] {
+				return fmt.Sprintf("byte %d of the %d-byte record changed (%#02x -> %#02x); field order %v", i, len(buf), snapshot[i], buf[i], order)
+			}
+		}
+		return "changed"
+	}
 }
